@@ -72,6 +72,119 @@ class TU:
         for c in self.classes:
             self.classes_by_key[short(c['key'])].append(c)
         self._callers = None
+        self.fid_alias = {}
+        self.collapsed = []
+        self._collapse_forwarders()
+
+    def _collapse_forwarders(self):
+        """A member function whose whole body is `return g(*this, own parameters...)` (or `this->g(own parameters...)`) where g is a
+        private/protected helper of the same class called from nowhere else is the same function written in two pieces: g takes
+        f's identity (name, key, position, parameters without the explicit object) so that every rule judges the body under the
+        name the property is anchored in, and the explicit-object parameter reads as `this` (paths.path)."""
+        if os.environ.get('EPP_NO_COLLAPSE'):
+            return
+        for _round in range(3):
+            callers = defaultdict(list)
+            for f in self.fns:
+                for n, o in f.nodes.items():
+                    ci = o.get('c')
+                    if ci is not None and ci >= 0 and o['cls'] != 'CXXNewExpr':
+                        fid = self.decls[ci].get('fid', -1)
+                        if fid >= 0:
+                            callers[fid].append((f, n))
+            done = False
+            for f in list(self.fns):
+                if f.kind not in ('method', 'operator') or f.body is None:
+                    continue
+                st = f.kids(f.body) if f.nodes[f.body]['cls'] == 'CompoundStmt' else []
+                if len(st) != 1:
+                    continue
+                n = st[0]
+                if f.nodes[n]['cls'] == 'ReturnStmt':
+                    ks = f.kids(n)
+                    if not ks:
+                        continue
+                    n = ks[0]
+                n = f.strip(n)
+                if not f.is_call(n) or f.nodes[n]['cls'] not in ('CallExpr', 'CXXMemberCallExpr'):
+                    continue
+                gs = f.callee_fns(n)
+                if len(gs) != 1:
+                    continue
+                g = gs[0]
+                if g is f or g.cls != f.cls or g.clsq != f.clsq or g.kind != 'method':
+                    continue
+                if len(callers.get(g.id, [])) != 1:
+                    continue
+                obj = f.call_obj(n)
+                if obj is not None and f.nodes[f.strip(obj)]['cls'] != 'CXXThisExpr':
+                    continue
+                args = [a for a in f.call_args(n) if f.nodes[a]['cls'] != 'CXXDefaultArgExpr']
+                if len(args) != len(g.params):
+                    continue
+                fpar = [p['id'] for p in f.params]
+                seen = []
+                selfs = set()
+                subst = {}
+                ok = True
+                from .paths import path as _path
+                for a, gp in zip(args, g.params):
+                    v = f.value_source(a)
+                    o = f.nodes[v]
+                    if o['cls'] == 'UnaryOperator' and o.get('op') == '*' and f.nodes[f.strip(f.kids(v)[0])]['cls'] == 'CXXThisExpr':
+                        selfs.add(gp['id'])
+                        continue
+                    if o['cls'] == 'DeclRefExpr':
+                        d = f.decl(v)
+                        if d and d['kind'] == 'parm' and d['id'] in fpar and d['id'] not in seen:
+                            seen.append(d['id'])
+                            continue
+                    # a member of the object reached by field / dereference steps only, bound to a reference parameter: `*data`, `filterList`
+                    gt = self.type(gp['t'])
+                    pp = _path(f, a)
+                    if gt and gt.get('ref') and pp and pp[0] == 'this' and len(pp) > 1 and all(x == '*' or (x.startswith('.') and not x.endswith('()')) for x in pp[1:]):
+                        subst[gp['id']] = (f, a)
+                        continue
+                    ok = False
+                    break
+                if not ok or seen != fpar:
+                    continue
+                if not selfs and not subst:
+                    continue      # `this->g(args)`: both names are real member functions; rules follow such helpers themselves
+                # g becomes f
+                self.collapsed.append((f.skey, g.skey, f.where()))
+                if os.environ.get('EPP_DEBUG_COLLAPSE'):
+                    import sys
+                    print('collapse %s <- %s (%s) in %s' % (f.skey, g.skey, f.where(), self.label()), file=sys.stderr)
+                self.by_key[g.skey] = [x for x in self.by_key[g.skey] if x is not g]
+                self.by_key[f.skey] = [g if x is f else x for x in self.by_key[f.skey]]
+                g.helper_skey = g.skey
+                for attr in ('key', 'skey', 'q', 'name', 'kind', 'line', 'loc', 'access'):
+                    setattr(g, attr, getattr(f, attr))
+                g.self_params = selfs
+                g.param_subst = subst
+                g.params = [p for p in g.params if p['id'] not in subst]
+                for h in self.fns:
+                    x = h
+                    while x is not None and x is not g:
+                        x = self.by_id.get(x.parent_id) if x.parent_id is not None else None
+                    if x is not g:
+                        continue
+                    h.self_params = selfs
+                    h.param_subst = subst
+                    for nn, oo in h.nodes.items():
+                        if oo['cls'] == 'DeclRefExpr':
+                            dd = h.decl(nn)
+                            if dd and dd.get('kind') == 'parm' and dd.get('id') in selfs:
+                                oo['cls'] = 'CXXThisExpr'      # the explicit object reads as the implicit one
+                                oo['was_self'] = True
+                g.params = [p for p in g.params if p['id'] not in selfs]
+                self.fid_alias[f.id] = g.id
+                self.by_id[f.id] = g
+                self.fns = [x for x in self.fns if x is not f]
+                done = True
+            if not done:
+                break
 
     def label(self):
         return '%s[%s]' % (os.path.basename(self.unit), self.variant)
@@ -96,9 +209,7 @@ class TU:
                     if ci is not None and ci >= 0 and o['cls'] != 'CXXNewExpr':
                         fid = self.decls[ci].get('fid', -1)
                         if fid >= 0:
-                            c[fid].append((f, n))
-                    if o['cls'] == 'LambdaExpr':
-                        pass
+                            c[self.fid_alias.get(fid, fid)].append((f, n))
             self._callers = c
         return self._callers
 
@@ -134,6 +245,9 @@ class Fn:
         self._pdom = None
         self._reach = None
         self._decl_of_var = None
+        self.self_params = set()
+        self.param_subst = {}
+        self.helper_skey = None
 
     # ---- identity -------------------------------------------------------------------
     def locpos(self):
@@ -360,6 +474,12 @@ class Fn:
                 for g in self.callee_fns(n):
                     if g.kind != 'lambda' and g.id != self.id and (g.d.get('lib', True)):
                         out += g.deep_calls(pred, depth - 1, _seen, top)
+                # a lambda written in place as an argument (std::for_each(b, e, [..]{..}), an execute-around helper) runs inside that call
+                for a in self.nodes[n].get('args', []):
+                    if self.nodes[self.value_source(a)]['cls'] == 'LambdaExpr':
+                        g = self.functor_body(a)
+                        if g is not None:
+                            out += g.deep_calls(pred, depth - 1, _seen, top)
         return out
 
     def functor_body(self, n):
@@ -369,6 +489,13 @@ class Fn:
         o = self.nodes[x]
         if o['cls'] == 'LambdaExpr':
             return self.tu.by_id.get(o.get('fid'))
+        # a closure first given a name: `auto pred = [..]{..}; wait(lock, pred);` (a closure object cannot be assigned to afterwards)
+        if o['cls'] == 'DeclRefExpr' and (self.decl(x) or {}).get('kind') == 'var':
+            vd = self.var_decl_any(self.decl(x)['id'])
+            if vd and vd[1].get('init'):
+                i = vd[0].value_source(vd[1]['init'])
+                if vd[0].nodes[i]['cls'] == 'LambdaExpr':
+                    return self.tu.by_id.get(vd[0].nodes[i].get('fid'))
         # a copy / move of a temporary functor: look at the functor's own type
         for _ in range(3):
             if self.is_construct(x) and (self.callee(x) or {}).get('ctor') in ('copy', 'move') and self.nodes[x].get('args'):
@@ -398,6 +525,19 @@ class Fn:
                         m[v['id']] = vv
             self._decl_of_var = m
         return self._decl_of_var
+
+    def var_decl_any(self, vid):
+        """(function, declaration record) of local variable vid, looked up in this function and, for a lambda, in the enclosing ones
+        (captured variables)."""
+        f = self
+        for _ in range(6):
+            if f is None:
+                return None
+            vd = f.var_decls().get(vid)
+            if vd is not None:
+                return (f, vd)
+            f = f.parent_fn()
+        return None
 
     def param_ids(self):
         return {p['id']: p for p in self.params}
